@@ -444,10 +444,20 @@ class ExtendedNonlocalGame:
         mat = defaultdict(cvxpy.Variable)
         for x_in in range(alice_in):
             for y_in in range(bob_in):
-                mat[x_in, y_in] = cvxpy.Variable(
-                    (alice_out * referee_dim, bob_out * referee_dim),
-                    name=f"K(a, b | {x_in}, {y_in})",
-                    hermitian=True,
+                # Every block K(a, b | x, y) is a Hermitian operator on the referee's space; the blocks are independent
+                # of each other (the block matrix as a whole is neither square nor Hermitian in general).
+                mat[x_in, y_in] = cvxpy.bmat(
+                    [
+                        [
+                            cvxpy.Variable(
+                                (referee_dim, referee_dim),
+                                name=f"K({a_out}, {b_out} | {x_in}, {y_in})",
+                                hermitian=True,
+                            )
+                            for b_out in range(bob_out)
+                        ]
+                        for a_out in range(alice_out)
+                    ]
                 )
 
         p_win = cvxpy.Constant(0)
